@@ -176,19 +176,28 @@ def core_name(d):
     return d[0]
 
 
-def address(chk, prog, cfg):
-    fn = "humphrey::http::address::Address::from_headers"
+XFF_OK = r"(::|>::)(trim|trim_start|trim_end|deref|as_ref|as_str|borrow|clone|to_owned|to_string|into|from)$"
+
+
+def xff_elements(chk, prog, cfg, rule, fn="humphrey::http::address::Address::from_headers"):
+    """Every element of the X-Forwarded-For list is handed to IpAddr::from_str after whitespace trimming and nothing else:
+    every listed address is then recorded (origin_addr / proxies), which is what the blacklist test relies on."""
     b = prog.bodies.get(fn)
-    chk.floor("Address::from_headers", 1 if b else 0, 1)
     if not b:
         return
-    # R5: each list element is trimmed before IpAddr::from_str
     sites = []
-    for c in [b] + prog.all_closures_of(fn):
+    reach = sorted(prog.reach_bodies([fn], extra_edges=lambda bb: [c.path for c in prog.closures_of(bb.path)]))
+    for pth in reach:
+        c = prog.bodies[pth]
         for blk, t in c.calls_to(r"FromStr::from_str$|IpAddr::from_str$|::parse$"):
             if "IpAddr" in (t.get("resolved") or "") + " ".join(t.get("gargs") or []) + (t.get("callee_args") or ""):
                 sites.append((c, blk, t))
-    chk.floor("X-Forwarded-For element parse site", len(sites), 1)
+    chk.floor(f"X-Forwarded-For element parse site [{cfg}]", len(sites), 1)
+    splits = [blk for blk, t in b.calls_to(r"<impl str>::split$")]
+    chk.floor(f"X-Forwarded-For list split [{cfg}]", len(splits), 1)
+    for blk in splits:
+        sep = describe(prog, b, b.term(blk)["args"][1])
+        chk.ob(rule, fn, "the list is split at every ','", sep == ("lit", 44) or sep == ("lit", ","), f"separator {sep}", where=b.where(blk), cfg=cfg)
     for c, blk, t in sites:
         d = describe(prog, c, t["args"][0])
         trimmed = desc_contains(d, lambda x: x[0] == "call" and ("::trim" in x[1]))
@@ -199,9 +208,30 @@ def address(chk, prog, cfg):
                     a = describe(prog, b, t2["args"][1]) if len(t2["args"]) > 1 else None
                     if a and desc_contains(a, lambda x: x[0] == "fn" and "::trim" in x[1]):
                         trimmed = True
-        chk.ob("R5.trim", fn, "IpAddr::from_str(<trimmed list element>)", trimmed,
+        chk.ob(rule, fn, "IpAddr::from_str(<trimmed list element>)", trimmed,
                f"the X-Forwarded-For element is parsed as {d}: with optional whitespace after the comma (RFC 9110 list syntax) "
                f"the address is silently skipped and origin/proxies are wrong", where=c.where(blk), cfg=cfg)
+        odd = sorted(set(x[1] for x in desc_calls(d) if not core.re.search(XFF_OK, x[1])))
+        direct = c.path.startswith(fn + "::{closure") or c.path == fn
+        is_elem = desc_contains(d, lambda x: x[0] == "param") and direct
+        chk.ob(rule, fn, "the element reaches IpAddr::from_str through trimming only (no port / bracket / prefix surgery)", not odd and is_elem,
+               f"the element is rewritten by {[core.short(x) for x in odd]} in {core.short(c.path)} before it is parsed: addresses that the rewrite mangles "
+               "(e.g. `::1` split at its last ':') are silently dropped from origin/proxies, so a blacklisted forwarded-for address is not seen",
+               where=c.where(blk), cfg=cfg)
+    # nothing but the parse decides which elements are kept
+    fm = [(blk, t) for blk, t in b.calls_to(r"Iterator::filter_map$|Iterator::filter$|Iterator::take$|Iterator::skip$|Iterator::take_while$|Iterator::skip_while$|Iterator::step_by$")]
+    keep = [t["callee"].split("::")[-1] for blk, t in fm]
+    chk.ob(rule, fn, "elements are dropped only when IpAddr::from_str rejects them (single filter_map over the split)", keep == ["filter_map"],
+           f"adaptors on the element list: {keep}", cfg=cfg)
+
+
+def address(chk, prog, cfg):
+    fn = "humphrey::http::address::Address::from_headers"
+    b = prog.bodies.get(fn)
+    chk.floor("Address::from_headers", 1 if b else 0, 1)
+    if not b:
+        return
+    xff_elements(chk, prog, cfg, "R5.trim")
     # R6: origin <- last element; peer appended to proxies; port from the peer
     st = prog.structs["humphrey::http::address::Address"]["fields"]
     idx = {x["name"]: i for i, x in enumerate(st)}
